@@ -993,6 +993,7 @@ func endToEnd(c *vf.Ctx) {
 		first bool
 		state int
 		mech  bool
+		cuni  bool // how the context was created; what is spoken is what the CHALLENGE negotiates
 	}
 	var pcs []pc
 	sc := [8]byte{0xfe, 0xdc, 0xba, 0x98, 0x76, 0x54, 0x32, 0x10}
@@ -1009,7 +1010,7 @@ func endToEnd(c *vf.Ctx) {
 					if fl&rn.FlagTargetInfo != 0 {
 						ti = tis[(di+ui+wi)%len(tis)]
 					}
-					pcs = append(pcs, pc{authIn{fl, sc, ti, u, "Password", d, w}, (di + ui) % 4, (di+wi)%2 == 1, []int{1, 1, 0, 3, -1}[(di+ui+wi)%5], (ui+wi)%4 != 3})
+					pcs = append(pcs, pc{authIn{fl, sc, ti, u, "Password", d, w}, (di + ui) % 4, (di+wi)%2 == 1, []int{1, 1, 0, 3, -1}[(di+ui+wi)%5], (ui+wi)%4 != 3, (di+wi)%2 == 0})
 				}
 			}
 		}
@@ -1029,10 +1030,10 @@ func endToEnd(c *vf.Ctx) {
 		chal := rn.EncodeChallenge(spec)
 		frame := rn.WrapRespLib(k.state, k.mech, chal)
 		desc := func() string {
-			return fmt.Sprintf("spnego.NewAuthContext(NTLM, domain=%q, user=%q, password=%q, workstation=%q, unicode=true).ProcessChallengeToken(%s) [frame: negState=%d mech=%v around CHALLENGE %s]", in.d, in.user, in.pw, in.w, vf.HexS(frame), k.state, k.mech, vf.HexS(chal))
+			return fmt.Sprintf("spnego.NewAuthContext(NTLM, domain=%q, user=%q, password=%q, workstation=%q, unicode=%v).ProcessChallengeToken(%s) [frame: negState=%d mech=%v around CHALLENGE %s]", in.d, in.user, in.pw, in.w, k.cuni, vf.HexS(frame), k.state, k.mech, vf.HexS(chal))
 		}
-		c.Case([]byte("e2e-chal"), frame, []byte(in.d), []byte{0}, []byte(in.user), []byte{0}, []byte(in.w))
-		ctx := spnego.NewAuthContext(spnego.AuthTypeNTLM, in.d, in.user, in.pw, in.w, true)
+		c.Case([]byte("e2e-chal"), frame, []byte(in.d), []byte{0}, []byte(in.user), []byte{0}, []byte(in.w), []byte{boolByte(k.cuni)})
+		ctx := spnego.NewAuthContext(spnego.AuthTypeNTLM, in.d, in.user, in.pw, in.w, k.cuni)
 		var out []byte
 		var err error
 		if !call(t, "spnego.AuthContext.ProcessChallengeToken", desc, func() { out, err = ctx.ProcessChallengeToken(append([]byte{}, frame...)) }) {
@@ -1060,7 +1061,7 @@ func endToEnd(c *vf.Ctx) {
 			if prev.Flags&rn.FlagVersion != 0 {
 				prev.Version = [8]byte{6, 1, 0xb1, 0x1d, 0, 0, 0, 15}
 			}
-			ctx2 := spnego.NewAuthContext(spnego.AuthTypeNTLM, in.d, in.user, in.pw, in.w, true)
+			ctx2 := spnego.NewAuthContext(spnego.AuthTypeNTLM, in.d, in.user, in.pw, in.w, k.cuni)
 			var out2 []byte
 			var err2 error
 			desc2 := func() string {
